@@ -38,6 +38,20 @@ func (t *HToken) TxEmit(sender *types.Sender, address *types.Address, amount *bi
 	return t.EmissionAdd(amount)
 }
 
+// TxEmitG emits units of a group of the token (as industrial tokens do).
+func (t *HToken) TxEmitG(sender *types.Sender, address *types.Address, amount *big.Int, group string) error {
+	if !sender.Equal(t.Issuer()) {
+		return errors.New("unauthorized")
+	}
+	if amount.Cmp(big.NewInt(0)) <= 0 {
+		return errors.New("amount should be more than zero")
+	}
+	if err := t.TokenBalanceAddWithTicker(address, amount, t.ContractConfig().GetSymbol()+"_"+group, "txEmitG"); err != nil {
+		return err
+	}
+	return t.EmissionAdd(amount)
+}
+
 func (t *HToken) TxBurn(sender *types.Sender, amount *big.Int) error {
 	if err := t.TokenBalanceSub(sender.Address(), amount, "txBurn"); err != nil {
 		return err
